@@ -400,6 +400,9 @@ func genTree18(rng *Rng) *tree18 {
 	intoNewDir := rng.Chance(7)
 	intoScope := scopeDir
 	newDirChoice := rng.Intn(100)
+	if intoNewDir {
+		newDirChoice = 0
+	}
 	newDir := "/new"
 	switch {
 	case newDirChoice < 35:
@@ -441,7 +444,7 @@ func genTree18(rng *Rng) *tree18 {
 	if newDir == "" {
 		absNewDir = "/localized-" + filepath.Base(targetDir)
 	}
-	adv := rng.Chance(28)
+	adv := rng.Chance(28) && !intoNewDir
 	inj := func(p int) bool { return adv && rng.Chance(p) }
 	if inj(12) {
 		// reference to a file that does not exist
